@@ -129,7 +129,7 @@ def concretise_step(m, step, profile="default", user_names=None, passwords=None)
     if V == "USER":
         arg = user_names[c % len(user_names)]
         if (c // 8) % 3:
-            known = [u["login"] or "anonymous" for u in m.users]
+            known = [u["login"] or "anonymous" for u in m.users] or ["anonymous"]
             arg = known[c % len(known)]
     elif V == "PASS":
         arg = passwords[c % len(passwords)]
